@@ -2,7 +2,7 @@
 
 prove -> build implementation from /repo's working tree -> correspond -> search -> verdict/evidence
 """
-import json, os, random, re, subprocess, sys, time, hashlib, shutil
+import json, os, random, re, subprocess, sys, time, hashlib, shutil, fcntl, contextlib
 
 VERIF = os.path.dirname(os.path.dirname(os.path.abspath(__file__)))
 REPO = os.environ.get("VERIF_REPO", "/repo")
@@ -16,6 +16,30 @@ OUT = os.path.join(BUILD, "out")
 GUARD = "OMPL_VERIF"
 CXXFLAGS = ["-std=c++17", "-O1", "-ffp-contract=off", "-fno-fast-math", "-Wno-deprecated-declarations", "-D" + GUARD]
 FORBIDDEN = re.compile(r"\b(Admitted|admit|Axiom|Axioms|Parameter|Parameters|Conjecture|Conjectures|Abort All)\b|Unset\s+Guard|bypass_check|Admit\s+Obligations|type-in-type|impredicative-set|Unset\s+Positivity|Unset\s+Universe")
+
+
+_lock_depth = 0
+_lock_fh = None
+
+
+@contextlib.contextmanager
+def build_lock():
+    """Serialise everything that writes shared build products (coq/*.vo, build/ompl, build/harness, build/model) so
+    that several checks can run at the same time; re-entrant within one process."""
+    global _lock_depth, _lock_fh
+    if _lock_depth == 0:
+        os.makedirs(BUILD, exist_ok=True)
+        _lock_fh = open(os.path.join(BUILD, ".lock"), "w")
+        fcntl.flock(_lock_fh, fcntl.LOCK_EX)
+    _lock_depth += 1
+    try:
+        yield
+    finally:
+        _lock_depth -= 1
+        if _lock_depth == 0:
+            fcntl.flock(_lock_fh, fcntl.LOCK_UN)
+            _lock_fh.close()
+            _lock_fh = None
 
 
 def sh(cmd, timeout=None, cwd=None, env=None, input=None):
@@ -57,7 +81,7 @@ class Check:
         self.violations = []      # (what, replay_path, no_input)
         self.known_hits = []
         self.broken = []          # names of theorems / correspondences that no longer check
-        self.outdir = os.path.join(OUT, pid)
+        self.outdir = os.path.join(OUT, pid if self.tier == "quick" else pid + "." + self.tier)
         os.makedirs(self.outdir, exist_ok=True)
         os.makedirs(EVIDENCE, exist_ok=True)
         self.known = load_known_findings(pid)
@@ -74,9 +98,10 @@ class Check:
         """Build the property's proof file (full .vo, never -vos), collect Print Assumptions.
         Returns True iff every obligation is discharged."""
         target = deps_target or (prop_file[:-2] + ".vo")
-        if not os.path.exists(os.path.join(COQ, "Makefile")):
-            rc, o, e, s = sh("coq_makefile -f _CoqProject -o Makefile", cwd=COQ, timeout=60)
-        rc, o, e, s = sh("timeout 1500 make -k -j16 %s" % target, cwd=COQ, timeout=1600)
+        with build_lock():
+            if not os.path.exists(os.path.join(COQ, "Makefile")):
+                rc, o, e, s = sh("coq_makefile -f _CoqProject -o Makefile", cwd=COQ, timeout=60)
+            rc, o, e, s = sh("timeout 1500 make -k -j16 %s" % target, cwd=COQ, timeout=1600)
         self.step("prove:make", "make -C coq -k -j16 " + target, s, rc == 0)
         # statements and forbidden constructs
         src = open(os.path.join(COQ, prop_file)).read()
@@ -89,7 +114,8 @@ class Check:
                 for m in FORBIDDEN.finditer(txt):
                     bad.append("%s: %s" % (fn, m.group(0)))
         # re-run coqc on the property file itself for fresh Print Assumptions output
-        rc2, o2, e2, s2 = sh("timeout 900 coqc -Q . OmplV %s" % prop_file, cwd=COQ, timeout=1000)
+        with build_lock():
+            rc2, o2, e2, s2 = sh("timeout 900 coqc -Q . OmplV %s" % prop_file, cwd=COQ, timeout=1000)
         self.step("prove:coqc", "coqc -Q . OmplV " + prop_file, s2, rc2 == 0)
         axioms = parse_assumptions(o2)
         ok = (rc == 0 and rc2 == 0 and not bad)
@@ -114,7 +140,8 @@ class Check:
         return ok
 
     def coqchk(self, module):
-        rc, o, e, s = sh("timeout 1500 coqchk -o -silent -Q . OmplV OmplV.%s" % module, cwd=COQ, timeout=1600)
+        with build_lock():
+            rc, o, e, s = sh("timeout 1500 coqchk -o -silent -Q . OmplV OmplV.%s" % module, cwd=COQ, timeout=1600)
         self.step("prove:coqchk", "coqchk -o -silent -Q . OmplV OmplV." + module, s, rc == 0)
         self.cov["coqchk"] = {"rc": rc, "tail": (o + e)[-1500:]}
         if rc != 0:
@@ -124,6 +151,10 @@ class Check:
     # ---------------------------------------------------------------- implementation
     def build_ompl(self):
         """(Re)build libompl from /repo's working tree, hooks on."""
+        with build_lock():
+            self._build_ompl()
+
+    def _build_ompl(self):
         os.makedirs(BUILD, exist_ok=True)
         if not os.path.exists(os.path.join(OMPL_BUILD, "build.ninja")):
             cmd = ("cmake -G Ninja -S %s -B %s -DCMAKE_BUILD_TYPE=Release "
@@ -147,19 +178,25 @@ class Check:
             cmd += ["-g", "-fsanitize=address,undefined", "-fno-sanitize-recover=all"]
         if not os.path.exists(os.path.join(OMPL_BUILD, "src", "ompl", "config.h")):
             self.build_ompl()
-        cmd += [src, "-o", out]
+        tmp_out = "%s.tmp.%d" % (out, os.getpid())
+        cmd += [src, "-o", tmp_out]
         if link_ompl:
             libdir = os.path.join(OMPL_BUILD, "src", "ompl")
             cmd += ["-L" + libdir, "-lompl", "-Wl,-rpath," + libdir, "-lpthread", "-lboost_serialization", "-lboost_filesystem", "-lboost_system"]
         cmd += (extra or [])
         rc, o, e, s = sh(cmd, timeout=900)
-        self.step("impl:driver", " ".join(cmd), s, rc == 0)
+        self.step("impl:driver", " ".join(cmd).replace(tmp_out, out), s, rc == 0)
+        if rc == 0:
+            os.replace(tmp_out, out)      # atomic: another check may be running the previous binary
+        elif os.path.exists(tmp_out):
+            os.remove(tmp_out)
         if rc != 0:
             raise BuildError("driver %s does not compile against /repo:\n%s" % (name, e[-4000:]))
         return out
 
     def build_model(self):
-        rc, o, e, s = sh("make -s -C %s model" % VERIF, timeout=1800)
+        with build_lock():
+            rc, o, e, s = sh("make -s -C %s model" % VERIF, timeout=1800)
         self.step("model:extract", "make -C /verif model", s, rc == 0)
         if rc != 0:
             raise BuildError("model extraction failed:\n" + o[-2000:] + e[-3000:])
@@ -196,7 +233,7 @@ class Check:
         ev = {"property_id": self.pid, "tier": self.tier, "seed": self.seed, "level": self.level, "coverage": cov,
               "assumptions": self.assumptions, "wall_s": round(wall, 2), "violations": len(self.violations),
               "known_findings_reported": [k for k, _ in self.known_hits]}
-        tmp = os.path.join(EVIDENCE, self.pid + ".json.tmp")
+        tmp = os.path.join(EVIDENCE, "%s.json.tmp.%d" % (self.pid, os.getpid()))
         json.dump(ev, open(tmp, "w"), indent=1, default=str)
         os.replace(tmp, os.path.join(EVIDENCE, self.pid + ".json"))
         for slug, what in self.known_hits:
